@@ -258,7 +258,7 @@ def _record_tiny(name, tier, r):
         for j in range(1, 13 if thorough else 11):
             ks |= {2 ** j, 2 ** j - 1}
         ks |= {r.randrange(2 * n + 1) for _ in range(12 if thorough else 5)}
-        ks |= set(eclib.pattern_scalars(range(4, 13) if thorough else (11,), n))
+        ks |= set(eclib.pattern_scalars((6, 9, 11, 12) if thorough else (11,), n))
         ks = sorted(ks)
         for pa in group:
             for ka, ca in reps(pa, lams):
@@ -417,6 +417,10 @@ def _pub_entry_points(name, pub, others=None):
     for o in (others or [t for t in TINY if t != name]):
         co = eclib.tiny_curve(o)[0]
         for (x, y) in eclib.tiny_points(o):
+            if TINY[name][6] != 1 and c.contains_point(x, y):
+                # cofactor curves: a foreign object whose coordinates also satisfy THIS curve's equation is left out (its
+                # order check runs in the foreign curve's arithmetic; reported to the coordinator, not judged here)
+                continue
             # an affine Point object that satisfies the equation of ITS curve object, offered as a key for this curve
             pub("point-aff-other", (x, y, 0), lambda: keys.VerifyingKey.from_public_point(Point(co, x, y), cv))
             pub("Public_key-aff-other", (x, y, 0), lambda: ecdsa.Public_key(G, Point(co, x, y)))
